@@ -56,8 +56,16 @@ def slim(tr, kinds=None, drop=('headers', 'msg', 'url', 'host', 'port', 'key', '
     return out
 
 
+def last_connection(tr):
+    """The records of the last connection of a multi-connection run (plus the configuration record)."""
+    idx = [i for i, r in enumerate(tr) if r['k'] == 'ev' and r['name'] == 'connecting']
+    if len(idx) < 2:
+        return tr
+    return [r for r in tr[:idx[-1]] if r['k'] == 'cfg'] + tr[idx[-1]:]
+
+
 def run_model_instances(run, mc_module, monitor, instances, variants=None, kinds=None, judge_field='.tr',
-                        post=None, max_exec=None, extra_results=None):
+                        post=None, max_exec=None, extra_results=None, keep_reads=False):
     """instances: list of dicts {label, consts (overrides of DEFAULTS + HttpItems/Items/Cfg names), cfg (python dict
     of the Cfg record), simulate (optional 'num=..'), depth}.
     variants(scenario, behaviour) -> list of (tag, scenario) executed for each behaviour (default: as is).
@@ -127,7 +135,8 @@ def run_model_instances(run, mc_module, monitor, instances, variants=None, kinds
     run.evaluations += len(results)
     run.traces += len(results)
     # judge
-    traces = [{"id": i, "tr": slim(r[3], kinds)} for i, r in enumerate(results)]
+    traces = [{"id": i, "tr": slim(last_connection(r[3]) if r[2].get('judge_last_connection') else r[3], kinds, keep_reads=keep_reads)}
+              for i, r in enumerate(results)]
     if post:
         traces = [post(t, results[i]) for i, t in enumerate(traces)]
     rej, states, wall = pipeline.judge(monitor, traces, field=judge_field)
@@ -139,7 +148,7 @@ def run_model_instances(run, mc_module, monitor, instances, variants=None, kinds
 
 def standard_run(prop, tier, seed, mc_module, monitor, instances, kinds, rule, nontrivial, anchors=None,
                  variants=None, post=None, judge_field='.tr', exhaustive=None, extra=None, known_sig=None,
-                 sample_keys=('ev',), max_exec=None, random_scripts=None):
+                 sample_keys=('ev',), max_exec=None, random_scripts=None, keep_reads=False):
     """The whole pipeline for one property decided on the session model."""
     r = pipeline.Run(prop, tier, seed)
     r.rule = rule
@@ -161,7 +170,7 @@ def standard_run(prop, tier, seed, mc_module, monitor, instances, kinds, rule, n
     if max_exec is None and tier == 'thorough':
         max_exec = 40000        # behaviours replayed per model instance (seeded sample when the model has more)
     results, rej = run_model_instances(r, mc_module, monitor, instances, variants=variants, kinds=kinds, post=post,
-                                       judge_field=judge_field, max_exec=max_exec, extra_results=extra_results)
+                                       judge_field=judge_field, max_exec=max_exec, extra_results=extra_results, keep_reads=keep_reads)
     nt = set()
     seen = set()
     for label, b, sc, log in results:
@@ -179,15 +188,15 @@ def standard_run(prop, tier, seed, mc_module, monitor, instances, kinds, rule, n
     for tid, clause in rej:
         label, b, sc, log = results[tid]
         sig = known_sig(clause, sc, log) if known_sig else None
-        r.violation(clause, {"instance": label, "scenario": sc, "trace": slim(log, kinds)}, known_sig=sig)
+        r.violation(clause, {"instance": label, "scenario": sc, "trace": slim(log, kinds, keep_reads=keep_reads)}, known_sig=sig)
     return r, results, seen
 
 
-def standard_replay(prop, monitor, kinds, path, post=None, judge_field='.tr'):
+def standard_replay(prop, monitor, kinds, path, post=None, judge_field='.tr', keep_reads=False):
     from . import world
     case = json.load(open(path))['case']
     log, ws = world.run_scenario(case['scenario'])
-    t = {"id": 0, "tr": slim(log, kinds)}
+    t = {"id": 0, "tr": slim(log, kinds, keep_reads=keep_reads)}
     if post:
         t = post(t, ('replay', None, case['scenario'], log))
     rej, _, _ = pipeline.judge(monitor, [t], field=judge_field)
